@@ -85,7 +85,16 @@ Next ==
     \/ \E sc \in ObjScopes, s \in Objs, o \in Keys \X Payloads : Add(sc, s, o)
     \/ \E sc \in ObjScopes, s \in Objs, o \in Keys \X Payloads : Rem(sc, s, o)
 
-Spec == Init /\ [][Next]_vars
+(* Persist: the stored maps are serialised (JSON) and loaded back by another
+   process that holds its own, equal, instance of the settings spec (the spec
+   crosses process boundaries by pickle).  It is a stuttering step of the
+   abstract state - [][Next]_vars admits it anywhere - and the conformance
+   harness inserts it before the last and in the middle of every history
+   (harness/c19.py replay_history(reload_at=k)): the real maps must then
+   still project to cfg after the remaining operations. *)
+Persist == UNCHANGED vars
+
+Spec == Init /\ [][Next \/ Persist]_vars
 
 -----------------------------------------------------------------------------
 (* effective value: most specific scope that defines it, else the default *)
